@@ -144,6 +144,49 @@ fn one(entry: &str) -> Option<Vec<u8>> {
             k.to_vec()
         }
         #[cfg(feature = "nightly")]
+        "lockedro_gen32" => {
+            use dryoc::protected::*;
+            let k = HeapByteArray::<32>::gen_readonly_locked().unwrap();
+            k.to_vec()
+        }
+        #[cfg(feature = "nightly")]
+        "locked_trait_gen32" => {
+            use dryoc::protected::*;
+            let k = <Locked<HeapByteArray<32>> as NewByteArray<32>>::gen();
+            k.to_vec()
+        }
+        #[cfg(feature = "nightly")]
+        "heapbytes_gen_locked33" => {
+            use dryoc::protected::*;
+            let mut k = HeapBytes::new_locked().unwrap();
+            k.resize(33, 0);
+            dryoc::rng::copy_randombytes(k.as_mut_slice());
+            k.to_vec()
+        }
+        #[cfg(feature = "nightly")]
+        "locked_kdf_gen" => {
+            let k = dryoc::kdf::protected::LockedKdf::gen();
+            let (key, ctx) = k.into_parts();
+            [key.to_vec(), ctx.to_vec()].concat()
+        }
+        #[cfg(feature = "nightly")]
+        "lockedro_keypair_gen" => {
+            let k = dryoc::keypair::KeyPair::gen_readonly_locked_keypair().unwrap();
+            [k.secret_key.to_vec(), k.public_key.to_vec()].concat()
+        }
+        #[cfg(feature = "nightly")]
+        "sign_locked_keypair_gen" => {
+            let k = dryoc::sign::SigningKeyPair::gen_locked_keypair().unwrap();
+            [k.secret_key.to_vec(), k.public_key.to_vec()].concat()
+        }
+        #[cfg(feature = "nightly")]
+        "sign_lockedro_keypair_gen" => {
+            let k = dryoc::sign::SigningKeyPair::gen_readonly_locked_keypair().unwrap();
+            [k.secret_key.to_vec(), k.public_key.to_vec()].concat()
+        }
+        #[cfg(feature = "nightly")]
+        "locked_secretbox_key_gen" => dryoc::dryocsecretbox::protected::Locked::<dryoc::dryocsecretbox::protected::Key>::gen().to_vec(),
+        #[cfg(feature = "nightly")]
         "locked_keypair_gen" => {
             let k = dryoc::keypair::KeyPair::gen_locked_keypair().unwrap();
             [k.secret_key.to_vec(), k.public_key.to_vec()].concat()
